@@ -123,4 +123,133 @@ theorem recover_patches (P : List Patch) (X S : List (String × List Nat)) :
   rw [names_clearPatches] at h
   rw [h]
 
+/-! ### backport keeps edge data, hence `NoInvalid` (round 6d) -/
+
+theorem bpOne_only_corners (vs : List Vtx) (pairs : List (Block × Nat)) (o : Op) :
+    ∃ cs, bpOne vs pairs o = { o with corners := cs } := by
+  induction pairs generalizing o with
+  | nil => exact ⟨o.corners, rfl⟩
+  | cons p rest ih =>
+    obtain ⟨b, id⟩ := p
+    simp only [bpOne]
+    have h2 : ∃ cs1, setCorners (b.verts.map (locOf vs)) id o = { o with corners := cs1 } := by
+      unfold setCorners
+      split
+      · exact ⟨_, rfl⟩
+      · exact ⟨o.corners, rfl⟩
+    obtain ⟨cs1, h2⟩ := h2
+    obtain ⟨cs, h3⟩ := ih { o with corners := cs1 }
+    exact ⟨cs, by rw [h2, h3]⟩
+
+theorem noInvalid_bpOne (vs : List Vtx) (pairs : List (Block × Nat)) (o : Op) (h : NoInvalid o) :
+    NoInvalid (bpOne vs pairs o) := by
+  obtain ⟨cs, e⟩ := bpOne_only_corners vs pairs o
+  rw [e]
+  intro c1 c2
+  exact h c1 c2
+
+theorem noInvalid_backportDepot (vs : List Vtx) (pairs : List (Block × Nat)) (depot : List Op)
+    (h : ∀ o ∈ depot, NoInvalid o) : ∀ o ∈ backportDepot vs pairs depot, NoInvalid o := by
+  rw [backportDepot_eq_map]
+  intro o ho
+  obtain ⟨a, ha, rfl⟩ := List.mem_map.mp ho
+  exact noInvalid_bpOne vs pairs a (h a ha)
+
+/-- without invalid edge data `backportX` is `backport` and never raises -/
+theorem backportX_ok (m : Mesh) (h : ∀ o ∈ m.depot, NoInvalid o) :
+    backportX m = (backport m).map (fun m' => (m', false)) := by
+  unfold backportX backport
+  by_cases ha : isAssembled m = true
+  · simp only [ha, if_true, Option.map_some]
+    congr 1
+    apply assembleX_ok
+    exact noInvalid_backportDepot _ _ _ h
+  · simp [ha]
+
+/-! ### along a whole history -/
+
+/-- a call that brings no invalid edge data into the depot -/
+def StepOk : Step → Prop
+  | .add o => NoInvalid o
+  | .addEntity ops => ∀ o ∈ ops, NoInvalid o
+  | _ => True
+
+theorem write_depot (m : Mesh) : (write m).1.depot = m.depot := by
+  unfold write
+  simp only
+  split <;> split <;> (try split) <;> rfl
+
+theorem stepX_eq_step (m : Mesh) (s : Step) (h : ∀ o ∈ m.depot, NoInvalid o) : stepX m s = step m s := by
+  have ha := assembleX_ok m h
+  cases s with
+  | assemble => simp [stepX, step, ha]
+  | backport =>
+    simp only [stepX, step, backportX_ok m h]
+    cases backport m <;> rfl
+  | write =>
+    simp only [stepX, step, writeX, write, ha]
+    by_cases hs : isAssembled m = true
+    · by_cases hd : (gradeBlocks m).lists.blocks.all Block.isDefined = true <;> simp [hs, hd, -List.all_eq_true]
+    · by_cases hb : isAssembled (assemble m) = true
+      · by_cases hd : (gradeBlocks (assemble m)).lists.blocks.all Block.isDefined = true <;>
+          simp [hs, hb, hd, -List.all_eq_true]
+      · simp [hs, hb]
+  | _ => rfl
+
+theorem noInvalid_step (m : Mesh) (s : Step) (h : ∀ o ∈ m.depot, NoInvalid o) (hs : StepOk s) :
+    ∀ o ∈ (step m s).depot, NoInvalid o := by
+  cases s with
+  | add o =>
+    intro o' ho'
+    simp only [step, add, List.mem_append, List.mem_singleton] at ho'
+    rcases ho' with ho' | rfl
+    · exact h o' ho'
+    · exact hs
+  | readd id =>
+    simp only [step]
+    split
+    · rename_i o hf
+      intro o' ho'
+      simp only [add, List.mem_append, List.mem_singleton] at ho'
+      rcases ho' with ho' | rfl
+      · exact h o' ho'
+      · exact h _ (List.mem_of_find?_eq_some hf)
+    · exact h
+  | addEntity ops =>
+    intro o' ho'
+    simp only [step, addEntity, List.mem_append] at ho'
+    rcases ho' with ho' | ho'
+    · exact h o' ho'
+    · exact hs o' ho'
+  | backport =>
+    simp only [step]
+    unfold backport
+    by_cases ha : isAssembled m = true
+    · simp only [ha, if_true, Option.getD_some]
+      exact noInvalid_backportDepot _ _ _ h
+    · simp only [ha]
+      exact h
+  | write => show ∀ o ∈ (write m).1.depot, NoInvalid o; rw [write_depot]; exact h
+  | move r loc =>
+    simp only [step, moveVertex]
+    split <;> exact h
+  | moveOnto r1 r2 =>
+    simp only [step, moveOnto, moveVertex]
+    split <;> exact h
+  | translate r d =>
+    simp only [step, translateVertex, moveVertex]
+    split <;> exact h
+  | _ => exact h
+
+/-- the histories the driver runs (`stepX`) are the histories the theorems are about (`step`) as long as no call brings
+    invalid edge data -/
+theorem runX_eq_run (m : Mesh) (hist : List Step) (h : ∀ o ∈ m.depot, NoInvalid o) (hs : ∀ s ∈ hist, StepOk s) :
+    hist.foldl stepX m = run m hist := by
+  induction hist generalizing m with
+  | nil => rfl
+  | cons s rest ih =>
+    simp only [List.foldl_cons, run]
+    rw [stepX_eq_step m s h]
+    exact ih (step m s) (noInvalid_step m s h (hs s (by simp))) (fun s' hs' => hs s' (by simp [hs']))
+
 end CBV.C12
